@@ -117,7 +117,7 @@ func buildScenario(seed int64, mode string, idx int, thorough bool) *scenCase {
 	// a mirror target nothing can be sent to (limited broadcast without SO_BROADCAST: every send fails, the mirror
 	// workers give up, the mirror queues - up to 3 x 1000 slots - fill, and from then on every copy is refused): the
 	// workers' "queue full" path runs, with alternating datagram sizes behind it
-	if mode == "alias" && (proto == "ipfix" || proto == "sflow") && variant%3 == 1 {
+	if (mode == "alias" || mode == "account") && (proto == "ipfix" || proto == "sflow") && variant%3 == 1 {
 		sc.Sc.MirrorAddr, sc.Sc.MirrorPort = "255.255.255.255", 9
 		n = g.Range(3300, 3700)
 		sc.DeadMirror = true
